@@ -65,6 +65,9 @@ def check(ctx):
     ctx.need("CUDA kernels", nk, 6)
     # ---- R2 lazy attribute table is pure (memoises only)
     table_purity(ctx, rule="R2-pure-attribute-table")
+    # a memo slot shared by values that differ in something not in its key makes a result depend on what was asked before
+    from ..dispatch import check_cache_keys
+    check_cache_keys(ctx, rule="R5-cache-key-complete")
     # ---- R3 analyzer history
     _history(ctx, E)
     # ---- R4 environment defaults precede the first import of the compiled modules
